@@ -1,6 +1,7 @@
 package gm
 
 import (
+	"bufio"
 	"errors"
 	"fmt"
 	"reflect"
@@ -49,15 +50,51 @@ func (c *Call) Describe() string {
 }
 
 // RunStream reads a stream to exhaustion (at most len+2 calls) and records every call.
+//
+// The reader is configured with a buffered reader the harness owns (BufByteReader, the
+// documented way to share a buffer): consumption = bytes drawn from the transport minus bytes
+// still buffered is then measured on the harness' own object, whatever the reader does
+// internally. For the unsegmented, fault-free run of every stream the deprecated ByteReader
+// configuration is run as well and must give the same sequence of results.
 func RunStream(t *Transport, drw *dialect.ReadWriter, key *frame.V2Key) ([]Call, string) {
-	r := &frame.Reader{ByteReader: t, DialectRW: drw, InKey: key}
+	calls, prob := runStream(t, drw, key, false)
+	if prob == "" && len(t.Cuts) == 0 && t.FaultErr == nil {
+		t2 := &Transport{Data: t.Data}
+		calls2, prob2 := runStream(t2, drw, key, true)
+		if prob2 != "" {
+			return calls, "ByteReader configuration: " + prob2
+		}
+		if len(calls2) != len(calls) {
+			return calls, fmt.Sprintf("ByteReader configuration makes %d calls, BufByteReader configuration %d on the same stream", len(calls2), len(calls))
+		}
+		for i := range calls {
+			if a, b := calls[i].Describe(), calls2[i].Describe(); a != b {
+				return calls, fmt.Sprintf("call %d: ByteReader configuration gives %s, BufByteReader configuration %s on the same stream", i, b, a)
+			}
+		}
+	}
+	return calls, prob
+}
+
+func runStream(t *Transport, drw *dialect.ReadWriter, key *frame.V2Key, legacy bool) ([]Call, string) {
+	br := bufio.NewReaderSize(t, 512)
+	r := &frame.Reader{BufByteReader: br, DialectRW: drw, InKey: key}
+	if legacy {
+		r = &frame.Reader{ByteReader: t, DialectRW: drw, InKey: key}
+	}
 	if err := r.Initialize(); err != nil {
 		return nil, "initialize: " + err.Error()
+	}
+	buffered := func() int {
+		if legacy {
+			return 0 // consumption is not measured on this path
+		}
+		return br.Buffered()
 	}
 	var calls []Call
 	limit := len(t.Data) + 2
 	for i := 0; i < limit; i++ {
-		before := t.Drawn - r.BufByteReader.Buffered()
+		before := t.Drawn - buffered()
 		var c Call
 		func() {
 			defer func() {
@@ -68,7 +105,7 @@ func RunStream(t *Transport, drw *dialect.ReadWriter, key *frame.V2Key) ([]Call,
 			c.Frame, c.Err = r.Read()
 		}()
 		c.From = before
-		c.To = t.Drawn - r.BufByteReader.Buffered()
+		c.To = t.Drawn - buffered()
 		if c.Err != nil {
 			var re frame.ReadError
 			c.ReadErr = errors.As(c.Err, &re)
